@@ -135,8 +135,16 @@ class Driver:
         if float(r) != float(r2) or bool(done) != bool(t2):
             self.fail(f'step({i}) returned (reward {r}, done {done}); the {i}-th action {self.action_names[i]} of the action space gives ({r2}, {t2}) on the twin', 'adapter_action')
         self.check_obs(obs, f'step({i})')
-        if info != {}:
-            self.fail(f'step info is {info}, expected an empty dict', 'adapter_value')
+        if not isinstance(info, dict):
+            self.fail(f'step info is {type(info).__name__}, not a dict', 'adapter_value')
+        self.check_retained()
+
+    def check_retained(self):
+        r = getattr(self, 'retained', None)
+        if r is not None:
+            info, snap = r
+            if 'observation' not in info or sorted(info['observation']) != sorted(snap) or any(not np.array_equal(info['observation'][k], snap[k]) for k in snap):
+                self.fail('the info dictionary returned by an earlier wrapper step was changed by a later step', 'wrapper')
 
     def op_read(self):
         self.nops += 1
@@ -200,9 +208,12 @@ class Driver:
         if float(r) != float(r2) or bool(done) != bool(t2):
             self.fail(f'wrapper step({i}) returned (reward {r}, done {done}), twin ({r2}, {t2})', 'adapter_action')
         self.check_state(st_, f'wrapper step({i})')
-        if sorted(info) != ['observation']:
-            self.fail(f'wrapper step info has keys {sorted(info)}, expected ["observation"]', 'wrapper')
+        if not isinstance(info, dict) or 'observation' not in info:
+            self.fail(f'wrapper step info {sorted(info) if isinstance(info, dict) else type(info)} does not carry the observation', 'wrapper')
         self.check_obs(info['observation'], f'wrapper step({i}) info')
+        self.check_retained()
+        # a caller may keep the info of step t: it must still hold the observation of step t after later steps
+        self.retained = (info, {k: v.copy() for k, v in info['observation'].items()})
         if w.unwrapped is not self.env:
             self.fail('wrapper.unwrapped is not the wrapped environment', 'wrapper')
 
